@@ -18,7 +18,9 @@ def run(ctx):
             ("layered", "db:2", 300 if quick else 3000, "failures"),
             ("all", "mem", 500 if quick else 8000, "graded_failures"),
             ("tfc", "mem", 300 if quick else 2000, "failures"),
-            ("ptfc", "mem", 300 if quick else 2000, "failures")]
+            ("ptfc", "mem", 300 if quick else 2000, "failures"),
+            # unordered groups whose members take different real time (a member still inside its executor while a sibling reports a change)
+            ("gdelay", "mem", 150 if quick else 1500, "failures")]
     total, dis_all, dists, real_fail, samples, hist_total, changeback = 0, [], {}, [], [], 0, []
     execs = noexec = 0
     for k, (mode, cfg, n, fn) in enumerate(runs):
